@@ -123,6 +123,9 @@ def main(tier):
         rejected, nvalid = trace_validate(chk, files if tier == "thorough" else files[:4])
         for r in rejected:
             chk.disagree(f"C05:trace-rejected:{json.dumps(r['line'])[:160]}", r)
+        if tier == "thorough":
+            from . import suite
+            suite.validate_suite(chk, "C05")      # incl. the push/pop events of the repository's own tests
         # demonstrate the binding: corrupt one logged depth
         selftest(chk, files[0])
         chk.cov["traces_validated_against_impl"] = len(allb) + nvalid
